@@ -57,7 +57,7 @@ def _parse(out):
     return rows
 
 
-def run_driver(kind, triples, timeout=900):
+def run_driver(kind, triples, timeout=600):
     """Returns dict(rows, returncode, report)."""
     exe = build_driver(kind)
     env = dict(os.environ)
@@ -73,7 +73,11 @@ def run_driver(kind, triples, timeout=900):
     except subprocess.TimeoutExpired:
         return {'rows': [], 'returncode': None, 'report': 'timeout', 'timeout': True}
     err = r.stderr.decode(errors='replace')
-    return {'rows': _parse(r.stdout), 'returncode': r.returncode, 'report': err[-3000:], 'timeout': False}
+    return {'rows': _parse(r.stdout), 'returncode': r.returncode, 'report': _clip(err), 'timeout': False}
+
+
+def _clip(text):
+    return text if len(text) <= 3200 else text[:2200] + '\n[...]\n' + text[-900:]
 
 
 REPORT_RE = re.compile(r'ERROR: AddressSanitizer|runtime error:|ERROR: LeakSanitizer|== Invalid|== Conditional jump|'
@@ -84,7 +88,7 @@ def count_reports(text):
     return len(REPORT_RE.findall(text or ''))
 
 
-def run_inproc(cases, timeout=900):
+def run_inproc(cases, timeout=300):
     """Run dpss/pmtm cases in a child python under the ASan runtime. Returns dict."""
     lib = bootstrap.build_native('asan')
     rt = bootstrap.asan_runtime()
@@ -97,8 +101,10 @@ def run_inproc(cases, timeout=900):
         os.unlink(opath)
     env = dict(os.environ)
     env['LD_PRELOAD'] = rt
-    env['ASAN_OPTIONS'] = 'detect_leaks=0:halt_on_error=1:abort_on_error=0:exitcode=23'
-    env['UBSAN_OPTIONS'] = 'print_stacktrace=1:halt_on_error=1:exitcode=24'
+    # symbolize=0: inside a Python process the external symbolizer can dead-lock while a heap report
+    # is being printed; the report still names the module and offset, and the stand-alone lane symbolizes
+    env['ASAN_OPTIONS'] = os.environ.get('RV_ASAN_INPROC', 'detect_leaks=0:halt_on_error=1:abort_on_error=0:exitcode=23:symbolize=0')
+    env['UBSAN_OPTIONS'] = 'print_stacktrace=0:halt_on_error=1:exitcode=24'
     env['PYTHONPATH'] = bootstrap.DEPS
     try:
         r = subprocess.run([sys.executable, '-W', 'ignore', CHILD, bootstrap.SRC, lib, cpath, opath],
@@ -112,5 +118,5 @@ def run_inproc(cases, timeout=900):
         except Exception:
             res = []
     out = r.stdout.decode(errors='replace')
-    return {'results': res, 'returncode': r.returncode, 'report': r.stderr.decode(errors='replace')[-3000:],
+    return {'results': res, 'returncode': r.returncode, 'report': _clip(r.stderr.decode(errors='replace')),
             'timeout': False, 'done': 'INPROC-DONE' in out}
